@@ -332,11 +332,7 @@ func (r *condRun) exec(b cBatch) *cObs {
 					}()
 				}
 			}
-			if len(b.Lanes) == 1 {
-				run(i) // a single lane is run by the driver goroutine itself
-			} else {
-				go run(i)
-			}
+			go run(i) // always its own goroutine: a call that never returns must not take the driver with it
 		}
 		laneStuck := false
 		for i := range laneDone {
